@@ -34,6 +34,8 @@ def harnesses(tier, seed):
           "events are a canonical prefix; stops at a refused output with no later event; Some(false) exactly when the budget runs out at a back edge (budget' == 0); Some(true) only when the loop condition became zero; one budget unit per iteration", ["C07", "C08"]),
         h("u8_nested_loop_budget", "irint::execute_block::<_, true> (nested Loop arms)",
           "budget exhaustion inside an inner loop stops the whole program with Some(false): nothing after the truncated loops runs, whatever the outer condition cell holds", ["C07"]),
+        h("u8_if_nested_loop_budget", "irint::execute_block::<_, true> (If arm around a Loop)",
+          "budget exhaustion in a loop nested inside an If body stops the whole program with Some(false): nothing after the If runs", ["C07"]),
         h("u8_executable_result_mapping", "IrInterpreter::execute_limited (unwrap_or(true) mapping)",
           "Ok(true) on I/O-failure stop and on normal end, Ok(false) exactly on budget exhaustion, never Err", ["C07", "C08"],
           allow=["assertion failed: false"]),
